@@ -117,7 +117,10 @@ class DefGen:
             from harness.props.c08 import poly, XS
             w = 8
             if k == "time":
-                cal = {"default": poly([(rat(rng.randint(-9, 9), 2), 0), (rat(rng.randint(1, 9), 4), 1)]), "context": []}
+                shape = rng.choice(["linear", "linear", "scale", "quadratic", "offset+quadratic", "none"])
+                terms = {"linear": [(rat(rng.randint(-9, 9), 2), 0), (rat(rng.randint(1, 9), 4), 1)], "scale": [(rat(rng.randint(1, 9), 4), 1)],
+                         "quadratic": [(rat(rng.randint(1, 5), 4), 2)], "offset+quadratic": [(rat(rng.randint(-9, 9), 2), 0), (rat(1, 4), 2)], "none": []}[shape]
+                cal = {"default": poly(terms) if terms else {"k": "none"}, "context": []}
                 pt = xdoc.ptype_num(rng.choice(["abstime", "reltime"]), xdoc.numeric_enc("int", w), cal, unit="s")
                 pt["epoch"] = "TAI"
             else:
